@@ -2127,6 +2127,7 @@ class QuicConnection:
             error_code,
             final_size,
         )
+        was_finished = stream.receiver.is_finished
         try:
             event = stream.receiver.handle_reset(
                 error_code=error_code, final_size=final_size
@@ -2137,7 +2138,8 @@ class QuicConnection:
                 frame_type=frame_type,
                 reason_phrase=str(exc),
             )
-        if event is not None:
+        # the end of the stream (FIN or reset) is only signalled once
+        if event is not None and not was_finished:
             self._events.append(event)
         self._local_max_data.used += newly_received
 
@@ -2264,6 +2266,7 @@ class QuicConnection:
             )
 
         # process data
+        was_finished = stream.receiver.is_finished
         try:
             event = stream.receiver.handle_frame(frame)
         except FinalSizeError as exc:
@@ -2272,7 +2275,9 @@ class QuicConnection:
                 frame_type=frame_type,
                 reason_phrase=str(exc),
             )
-        if event is not None:
+        # a retransmitted or duplicated frame arriving after the end of the
+        # stream (FIN or reset) was signalled must not signal it again
+        if event is not None and not was_finished:
             self._events.append(event)
         self._local_max_data.used += newly_received
 
